@@ -202,6 +202,19 @@ PROPS = {
                     thorough={"executions.enumerated": 5000000}),
         assumptions=["schedules are enumerated at hook granularity on x86-TSO; weaker-memory reorderings are not explored", "data races in the C++ memory-model sense on the `next` fields are not judged (the algorithm validates optimistic reads by CAS)"],
     ),
+    "C18": dict(
+        harness="h_threads", sources=["threads/main.cpp", "common/ledger.cpp"], level="exploration",
+        variants=dict(quick=[V("tsan", 6), V("asan", 4)], thorough=[V("tsan", 12), V("asan", 8), V("opt", 4)]),
+        rule="each round (5 quick / 50 thorough per build, sharded) runs four families together with 2-16 threads per family mix: algebra workers on private vectors (14 operation kinds incl. eigen "
+             "systems and matrix exponentials, several dimensions), producer/consumer pairs handing 300 vectors each through a mutex-protected queue (consumers resize and destroy them), query "
+             "workers calling every GetExpectationValue/GetExpectationValueD/GetIntermediateState overload on two shared no-longer-evolving solvers of dimension 3 and 5, and a spawner of "
+             "short-lived threads; random yields/sleeps at hand-over points. Oracles: ThreadSanitizer reports with a squids:: frame (de-duplicated by stack tops), bitwise equality of every result "
+             "digest with the sequential run on the main thread (matrix exponentials within 1e-9), ledger: cross-thread releases observed, no array block live after all workers ended.",
+        floors=dict(quick={"workers.algebra": 10, "workers.query": 5, "workers.short_lived": 20, "blocks_allocated_on_one_thread_released_on_another": 100, "worker_threads_ended": 50},
+                    thorough={"workers.algebra": 200}),
+        assumptions=["TSan sees only the interleavings that occur and only instrumented code (GSL internals are invisible; the library does not share GSL objects across threads)"],
+        timeout=dict(quick=1500, thorough=7200),
+    ),
 }
 
 
@@ -289,3 +302,14 @@ for _k, (_lt, _ln, _te) in _T3.items():
         PROPS[_k]["level_text"] = _lt; PROPS[_k]["level_note"] = _ln; PROPS[_k]["technique"] = _te
         PROPS[_k]["design_ref"] = "DESIGN.md section 7 (" + _k + ")"
 ENGINE_TEXT["h_cache"] = "C++ harness: cooperative deterministic scheduler driving real threads through hook points of Cache.h (shared variant), conservation checker; sequential LIFO model for both variants"
+
+_T4 = {
+    "C18": ("Stress workloads of the four sharing patterns the property names, run under ThreadSanitizer and (separately) ASan with the ledger; results are compared bitwise with a sequential run. Held on the interleavings that occurred in the run.",
+            "Trusted: TSan's happens-before analysis on instrumented code; the harness' own synchronisation (mutex queue, atomics).",
+            "runtime monitoring: ThreadSanitizer + sequential-result oracle (bitwise) + allocation ledger for cross-thread release and thread-exit storage"),
+}
+for _k, (_lt, _ln, _te) in _T4.items():
+    if _k in PROPS:
+        PROPS[_k]["level_text"] = _lt; PROPS[_k]["level_note"] = _ln; PROPS[_k]["technique"] = _te
+        PROPS[_k]["design_ref"] = "DESIGN.md section 7 (" + _k + ")"
+ENGINE_TEXT["h_threads"] = "C++ harness: multi-threaded workloads (private algebra, hand-over queue, shared const solver, thread churn) under TSan / ASan with the allocation ledger and a sequential-result oracle"
